@@ -36,4 +36,15 @@ impl History {
             false
         }
     }
+
+    pub(crate) fn forget_zero_length_match(
+        &mut self,
+        repeat: &Repeat,
+        position: usize,
+        backrefs: Vec<Option<usize>>,
+    ) {
+        if let Some(positions) = self.zero_length_matches.get_mut(&(repeat as *const Repeat)) {
+            positions.remove(&(position, backrefs));
+        }
+    }
 }
